@@ -127,6 +127,8 @@ class Calls(DataModels):
             r = StructRef(func.name, func.owner)
             r.instance = True
             r.kw = dict(kw)
+            if args and isinstance(args[0], str):
+                r.field_name = args[0]           # field factory applied to a member name
             return r
         if func is None:
             raise PyExc('TypeError', ln, 'None is not callable')
@@ -153,6 +155,16 @@ class Calls(DataModels):
         if func in _BUILTIN_TABLE:
             return _BUILTIN_TABLE[func](self, I, args, kw, node)
         if isinstance(func, type):
+            from .vals import DynStruct, DynSwitch
+            if func.__module__ == 'elftools.construct.core' and func.__name__ == 'Struct' and args and isinstance(args[0], str) and \
+                    any(isinstance(a, (StructRef, DynStruct, DynSwitch)) for a in args[1:]):
+                for a in args[1:]:
+                    if not isinstance(a, (StructRef, DynStruct, DynSwitch)) or getattr(a, 'field_name', None) is None:
+                        raise Unsupported('Struct member %r' % (a,))
+                return DynStruct(args[0], list(args[1:]))
+            if func.__module__ == 'elftools.construct.core' and func.__name__ == 'Switch' and len(args) == 3 and isinstance(args[2], dict) \
+                    and not kw and all(isinstance(v, (StructRef, DynStruct)) for v in args[2].values()):
+                return DynSwitch(args[0], args[1], args[2])
             try:
                 from elftools.construct.core import Construct
                 if issubclass(func, Construct) and all(isinstance(a, (str, bytes, int, type(None)))
@@ -199,6 +211,12 @@ class Calls(DataModels):
     def inline_repo(self, I, c, args, kw, node):
         fn = extract.find(c.relpath, c.qualname)
         mod = importlib.import_module(extract.module_name(c.relpath))
+        import ast as _ast
+        if any(isinstance(n, (_ast.Yield, _ast.YieldFrom)) for n in _ast.walk(fn)):
+            # an inlined generator: only applied to concrete values, on which the real function itself is run
+            if '.' not in c.qualname and not kw and all(isinstance(a, (bytes, str, int, tuple)) for a in args):
+                return list(getattr(mod, c.qualname)(*args))
+            raise Unsupported('inlined generator %s applied to symbolic arguments' % c.qualname)
         sf = SFunc(fn, None, c.qualname, mod)
         # loop specs of an inlined callee are looked up under its own contract
         saved = (I.loop_specs, I.loop_ordinals)
@@ -274,6 +292,9 @@ class Calls(DataModels):
             if name in obj.fields:
                 return self.call(I, obj.fields[name], args, kw, node, fr)
             raise Unsupported('record.%s' % name)
+        from .vals import DynStruct as _DS
+        if isinstance(obj, _DS) and name == 'parse_stream':
+            return self.parse_at(I, obj, args[0], ln, exc='ConstructError')
         if isinstance(obj, StructRef):
             if name == 'sizeof':
                 lay = LAYOUTS.get(obj.name)
@@ -769,6 +790,23 @@ class Calls(DataModels):
             return self.parse_form(I, struct, stream, ln, exc)
         if isinstance(struct, StructRef) and getattr(struct, 'array', None):
             return self.parse_array(I, struct.array[0], struct.array[1], stream, ln, exc)
+        from .vals import DynStruct, DynSwitch
+        if isinstance(struct, DynStruct):
+            rec = SRec({}, 'Container')
+            for m in struct.members:
+                if isinstance(m, DynSwitch):
+                    key = self.call(I, m.keyfunc, [rec], {}, None, None)
+                    sub = None
+                    for k, v in m.cases.items():
+                        if I.ctx.branch(to_int(key) == k):
+                            sub = v
+                            break
+                    if sub is None:
+                        raise PyExc(exc if exc != 'ConstructError' else 'SwitchError', ln, 'no case for the switch key')
+                    rec.fields[m.field_name] = self.parse_at(I, sub, stream, ln, exc)
+                else:
+                    rec.fields[m.field_name] = self.parse_at(I, m, stream, ln, exc)
+            return rec
         if isinstance(struct, StructRef) and struct.name == 'Elf_ntbs':
             lay = cstring_layout(b'\x00', getattr(struct, 'kw', {}).get('encoding'))
             owner = struct.owner
